@@ -131,7 +131,7 @@ PROPS["C01"] = dict(
     "reordering, partitions, replays), storage, block sync (incl. forged blocks) and the Byzantine validators (equivocating proposals, votes for "
     "everything, lying timeout votes, early/old certificates, floods, other chain/epoch, non-members), plus crashes/restarts. Directed families "
     "(equivocating-leader, hidden-commit, timeout-liar, lagging-sync) create the shapes known to threaten agreement. Every block any correct node "
-    "hands to storage is checked against a global map, the per-node sequence, and FinalBlock::verify.",
+    "hands to storage is checked against a global map, the per-node sequence, and FinalBlock::verify. In the lagging-sync family one correct replica (the others still form a quorum without it) is cut off for the first half of the case and then catches up from a lying peer: for every missing block the genuine successor is offered first (it parks behind the gap and its call is cancelled), then the block, then the successor's certificate again with another payload - every submission must be verified in full.",
     assumptions=_SIM_ASSUME,
     stages=[dict(name="sim", flavour="release", **SIM), dict(name="sim-asan", flavour="asan", shards=8, tiers=["thorough"], args={"cases": 6}, **SIM)],
     floors={"quick": {"cases_with_commits": 60, "blocks_handed_to_storage": 2000, "byzantine_messages_accepted_total": 200, "cases_hidden-commit": 10, "cases_equivocating-leader": 10},
@@ -184,7 +184,7 @@ PROPS["C06"] = dict(
     "synchronous suffix: all correct replicas up, every in-flight message delivered, block sync to fixpoint, and only when nothing is in flight the manual clock advances by "
     "one view timeout. Oracle: every correct node stores a block nobody had before the suffix within 8 + 3 x (longest run of faulty-leader views) timeouts; an unchanged "
     "global state over consecutive rounds is reported as a deadlock regardless of the bound; a replica that stops on its own is a violation. The distribution of timeouts "
-    "needed is recorded in the evidence (calibration: max observed on the unchanged tree is far below the bound).",
+    "needed is recorded in the evidence (calibration: max observed on the unchanged tree is far below the bound). The poisoned-laggard prefix cuts off a correct replica that the others need for a quorum, lets the Byzantine validators vote like honest ones so that the rest finalizes blocks, and, as the adversary's last word, hands the isolated replica the newest commit certificate inside a timeout certificate of an old view (old honest timeout votes plus a Byzantine vote whose high certificate is unbounded); everything sent to it during the partition is lost.",
     assumptions=_SIM_ASSUME + ["liveness is decided only in its bounded virtual-time form; real-time liveness under the production scheduler/network is out of reach of this family"],
     stages=[dict(name="sim-heal", flavour="release", **SIM)],
     floors={"quick": {"fair_suffixes_that_progressed": 80, "cases_with_commits": 80}, "thorough": {"fair_suffixes_that_progressed": 150}},
@@ -356,7 +356,7 @@ PROPS["C12"] = dict(
     "identities (some configured as static peers) and 2-4 validator identities (committee members and outsiders) in a random schedule of connect / duplicate connect / close / pause / probe; "
     "every kept connection is probed with the ping RPC and is certainly served during [first successful response, last successful request]. Upper bounds only, hence sound under any timing: "
     "two connections of one identity on one network are never served at the same time, connections of non-configured identities served at one instant never exceed dynamic_inbound_limit, an "
-    "outsider key is never served on the validator network.",
+    "outsider key is never served on the validator network. In 30 % of the node cases the node is a standby validator (its validator key is not in the committee): its validator network must still admit committee members only.",
     assumptions=["held on the generated transcripts / sequences only", "node stage: real sockets and the real clock; a case that hits its 120 s wall-clock watchdog is inconclusive, never a verdict"],
     stages=[dict(name="pool", flavour="release", args={"mode": "pool"}, **NET), dict(name="handshake", flavour="release", args={"mode": "handshake"}, **NET),
             dict(name="node-admission", flavour="release", args={"mode": "node"}, **NET)],
